@@ -20,19 +20,19 @@ open PedVerif.Checker PedVerif.Gen.CallTables
 theorem args_guard (env : Env) (orc : Nat → Val → Raw) (horc : ∀ k v, orc k v ≠ .raisedTV) (f : Fn) (args : List Val)
     (kw : List (NameId × Val)) (body : BodyOut) (ctx : SoundCtx env f args kw)
     (hmode : f.mode = .pedantic)
-    (hinit : (f.firstIsSelf && args.isEmpty) = false)                              -- Python itself supplies self
+    (hinit : f.initFails args = false)                              -- Python itself supplies self
     (hkw : (f.shouldHaveKwargs && !(f.argsWithoutSelf args).isEmpty) = false)       -- the call is not rejected as positional first
     (hc : f.clazzFails args = false)
     (hbad : anyNonConforming env f args kw = true) :
     runCall env orc f args kw body = ⟨.pedTypeCheck, false, [], []⟩ := by
-  rw [runCall_pedantic env orc f args kw body hmode hinit hkw, checkArguments_bad horc ctx hc hbad]
+  rw [runCall_pedantic' env orc f args kw body hmode hinit hkw, checkArguments_bad horc ctx hc hbad]
 
 /-- … and in every case (also when the call is rejected for another reason first) the body does not run -/
 theorem args_guard_body_never_runs (env : Env) (orc : Nat → Val → Raw) (horc : ∀ k v, orc k v ≠ .raisedTV) (f : Fn) (args : List Val)
     (kw : List (NameId × Val)) (body : BodyOut) (ctx : SoundCtx env f args kw) (hmode : f.mode = .pedantic)
     (hc : f.clazzFails args = false) (hbad : anyNonConforming env f args kw = true) :
     (runCall env orc f args kw body).bodyRan = false := by
-  by_cases hinit : (f.firstIsSelf && args.isEmpty) = true
+  by_cases hinit : f.initFails args = true
   · unfold runCall; simp [hinit]
   · by_cases hkw : (f.shouldHaveKwargs && !(f.argsWithoutSelf args).isEmpty) = true
     · unfold runCall; simp [hinit, hkw]
@@ -61,7 +61,7 @@ theorem setter_value_guard (env : Env) (orc : Nat → Val → Raw) (horc : ∀ k
     cases h : checkArguments env orc f [slf, v] [] with
     | none => exact absurd h hne
     | some c => rw [checkArguments_some_tc env orc horc f _ _ hc c h]
-  rw [runCall_pedantic env orc f [slf, v] [] body hmode (by simp) (by simp [hshk]), hca]
+  rw [runCall_pedantic' env orc f [slf, v] [] body hmode (by simp [Fn.initFails]) (by simp [hshk]), hca]
 
 /-- the fold over the declared parameters, positional part: while the parameters have neither default nor keyword, the i-th one
     is checked against the i-th positional value (after the implicit self) - a bad one at ANY such position stops the fold -/
@@ -114,7 +114,7 @@ theorem checkParams_positional_bad {env : Env} {orc} {f : Fn} {args : List Val} 
     the positional prefix - never reaches the body. -/
 theorem positional_prefix_guard (env : Env) (orc : Nat → Val → Raw) (horc : ∀ k v, orc k v ≠ .raisedTV) (f : Fn) (args : List Val)
     (kw : List (NameId × Val)) (body : BodyOut) (ctx : SoundCtx env f args kw) (hmode : f.mode = .pedantic)
-    (hshk : f.shouldHaveKwargs = false) (hinit : (f.firstIsSelf && args.isEmpty) = false) (hc : f.clazzFails args = false)
+    (hshk : f.shouldHaveKwargs = false) (hinit : f.initFails args = false) (hc : f.clazzFails args = false)
     (k : Nat) (hpre : ∀ p ∈ f.plain.take k, p.dflt = none ∧ lookup kw p.name = none)
     (i : Nat) (hi : i < k) (p : Param) (v : Val) (a : Ann) (hp : f.plain[i]? = some p)
     (hv : args[(if f.firstIsSelf then 1 else 0) + i]? = some v) (ha : p.ann = some a) (hbad : conforms env a v = false) :
@@ -128,12 +128,12 @@ theorem positional_prefix_guard (env : Env) (orc : Nat → Val → Raw) (horc : 
     cases h : checkArguments env orc f args kw with
     | none => exact absurd h hne
     | some c => rw [checkArguments_some_tc env orc horc f _ _ hc c h]
-  rw [runCall_pedantic env orc f args kw body hmode hinit (by simp [hshk]), hca]
+  rw [runCall_pedantic' env orc f args kw body hmode hinit (by simp [hshk]), hca]
 
 /-- the value a parameter at position i receives is checked: special case "one bad keyword among conforming ones" -/
 theorem one_bad_keyword (env : Env) (orc : Nat → Val → Raw) (horc : ∀ k v, orc k v ≠ .raisedTV) (f : Fn) (args : List Val)
     (kw : List (NameId × Val)) (body : BodyOut) (ctx : SoundCtx env f args kw) (hmode : f.mode = .pedantic)
-    (hinit : (f.firstIsSelf && args.isEmpty) = false) (hkw : (f.shouldHaveKwargs && !(f.argsWithoutSelf args).isEmpty) = false)
+    (hinit : f.initFails args = false) (hkw : (f.shouldHaveKwargs && !(f.argsWithoutSelf args).isEmpty) = false)
     (hc : f.clazzFails args = false) (p : Param) (hp : p ∈ f.plain) (a : Ann) (v : Val) (ha : p.ann = some a)
     (hl : lookup kw p.name = some v) (hbad : conforms env a v = false) :
     runCall env orc f args kw body = ⟨.pedTypeCheck, false, [], []⟩ := by
@@ -147,11 +147,11 @@ theorem result_guard (env : Env) (orc : Nat → Val → Raw) (f : Fn) (args : Li
     (hw : WfEnv env) (hmode : f.mode = .pedantic) (hfl : f.flavour ≠ .generator)
     (a : Ann) (ha : f.retAnn = some a) (hs : a.strAnnOk env r = true) (hns : a.noSpecial = true) (hr : r.wf env = true ∧ r.iterFree = true)
     (hret : (runCall env orc f args kw (.ret r)).caller = .ret) : conforms env a r = true := by
-  by_cases hinit : (f.firstIsSelf && args.isEmpty) = true
+  by_cases hinit : f.initFails args = true
   · unfold runCall at hret; simp [hinit] at hret
   · by_cases hkw : (f.shouldHaveKwargs && !(f.argsWithoutSelf args).isEmpty) = true
     · unfold runCall at hret; simp [hinit, hkw] at hret
-    · rw [runCall_pedantic env orc f args kw _ hmode (by simpa using hinit) (by simpa using hkw)] at hret
+    · rw [runCall_pedantic' env orc f args kw _ hmode (by simpa using hinit) (by simpa using hkw)] at hret
       split at hret
       · rename_i c hc
         simp only at hret; subst hret
@@ -233,6 +233,33 @@ example : (runCall envW (fun _ _ => .raisedOther) witnessDefault [] [(1, .lit (.
 example : (runCall envW (fun _ _ => .raisedOther) witnessDefault [] [(1, .lit (.int 1)), (2, .lit (.str [98]))] (.ret (.lit (.str [])))).caller
     = .pedTypeCheck := by decide
 
+/-! ### region `positionalForDefaulted` (X2.2): a positional value for a declared parameter that has a default -/
+/-- `class K: @pedantic def __call__(self, a: int = 0) -> int` - an operator method outside the documented list: positionally callable -/
+def witnessCallDefault : Fn :=
+  { name := "__call__", flags := flagsOfSource "__call__" "    @pedantic\n    def __call__(self, a: int = 0) -> int:\n        return 1\n", qualDotted := true,
+    params := [{ name := 0, kind := .posOrKw, ann := none, dflt := none }, { name := 1, kind := .posOrKw, ann := some (.cls 2), dflt := some (.lit (.int 0)) }],
+    selfName := 0, firstIsSelf := true, isBound := false, retAnn := some (.cls 2), genRet := .notGenType, flavour := .sync, mode := .pedantic }
+/-- **region `positionalForDefaulted`**: `K()('x')` - the positional value `'x'` binds to `a: int = 0`, does not conform, and reaches the body:
+    `_check_type_param` looks at the keyword or at the declared default of a defaulted parameter, never at a positional value.  The value is
+    outside C03's enumeration (it is no explicit keyword, no omitted default, no `*args` element, no `**kwargs` value), hence outside
+    `anyNonConforming` - the region predicate `positionalForDefaultedBad` names it -/
+theorem positional_value_for_defaulted_unchecked :
+    positionalForDefaultedBad envW witnessCallDefault ⟨false, false, true, 1⟩ [.inst 7, .lit (.str [120])] = true ∧
+    anyNonConforming envW witnessCallDefault [.inst 7, .lit (.str [120])] [] = false ∧
+    (runCall envW (fun _ _ => .raisedOther) witnessCallDefault [.inst 7, .lit (.str [120])] [] (.ret (.lit (.int 1)))).bodyRan = true ∧
+    (runCall envW (fun _ _ => .raisedOther) witnessCallDefault [.inst 7, .lit (.str [120])] [] (.ret (.lit (.int 1)))).caller = .ret := by decide
+/-- C03 read so that a positional value counts as supplied as well -/
+def ArgsGuardPositional_full : Prop :=
+  ∀ (env : Env) (orc : Nat → Val → Raw) (f : Fn) (t : Truth) (args : List Val) (kw : List (NameId × Val)) (body : BodyOut),
+    WfEnv env → f.mode = .pedantic → f.clazzFails args = false →
+    (anyNonConforming env f args kw = true ∨ positionalForDefaultedBad env f t args = true) →
+    (runCall env orc f args kw body).bodyRan = false
+theorem ArgsGuardPositional_full_is_false : ¬ ArgsGuardPositional_full := by
+  intro h
+  have w := positional_value_for_defaulted_unchecked
+  have := h envW (fun _ _ => .raisedOther) witnessCallDefault ⟨false, false, true, 1⟩ [.inst 7, .lit (.str [120])] [] (.ret (.lit (.int 1))) envW_wf rfl
+    (by decide) (.inr w.1)
+  rw [w.2.2.1] at this; cases this
 /-- the side conditions of `args_guard` are satisfiable on a realistic class table (`envR`: every class carries its own name and
     `object` in its MRO, names the context does not bind): the string-annotation guard inside `ValOk` is free for a signature
     without string annotations -/
